@@ -7,7 +7,8 @@ META = {
     "engine_kind": "direct driver of kernel::lmm::System with monitors after every solve/modification",
     "level": "exploration",
     "technique": "differential after every solve: selectively updated maxmin system vs a fresh non-selective system rebuilt from the current variables",
-    "level_text": "Random histories (add/free variables, penalties incl. disable/enable, bounds, capacities; shared and fat-pipe constraints) are "
+    "level_text": "Random histories (add/free variables, penalties incl. disable/enable, bounds, capacities; shared and fat-pipe constraints; "
+                  "half of the runs with concurrency limits 1..3 so that variables are staged and woken up when a slot is released) are "
                   "applied to a maxmin system with selective update; at every solve a fresh system holding the same constraints, variables and "
                   "elements is built and solved from scratch and every rate is compared at 1e-5 relative precision (SimGrid's work-amount "
                   "precision). Sampled histories of 40 steps; holds on what was generated.",
@@ -18,22 +19,27 @@ META = {
 }
 
 
-def judge(ctx, out, seed, nhist, fl):
+def judge(ctx, out, seed, nhist, fl, limit=-1):
     for e in out["events"]:
         if e["kind"] == "MISMATCH":
-            ctx.violation("C17:selective-vs-fresh:maxmin", "history %d step %d (seed %d): %s" % (e["h"], e["step"], seed, e["rest"]),
-                          lmm.witness(seed, nhist, -1, "maxmin", fl, e))
+            ctx.violation("C17:selective-vs-fresh:maxmin" + (":with-concurrency-limits" if limit > 0 else ""),
+                          "history %d step %d (seed %d, limit %d): %s" % (e["h"], e["step"], seed, limit, e["rest"]),
+                          lmm.witness(seed, nhist, limit, "maxmin", fl, e))
 
 
 def run(ctx):
     nhist = ctx.size(1500, 20000)
-    jobs = [("hooks", ctx.sub_seed("h", i) % 1000003, nhist) for i in range(ctx.size(3, 12))] + [("asan", ctx.sub_seed("a") % 1000003, max(20, nhist // 5))]
+    # (flavour, seed, histories, concurrency limit): without limits, and with limits 1..k on 75% of the constraints, where
+    # variables get staged and are woken up when a slot is released (the fresh system then takes A's enabled/staged state)
+    jobs = [("hooks", ctx.sub_seed("h", i) % 1000003, nhist, -1) for i in range(ctx.size(3, 12))] + \
+           [("hooks", ctx.sub_seed("l", i) % 1000003, nhist, 1 + i % 3) for i in range(ctx.size(3, 12))] + \
+           [("asan", ctx.sub_seed("a") % 1000003, max(20, nhist // 5), -1), ("asan", ctx.sub_seed("al") % 1000003, max(20, nhist // 5), 2)]
     for fl in ("hooks", "asan"):
         build.harness("lmm_fuzz.cpp", fl, internal=True)
 
     def one(j):
-        fl, seed, n = j
-        res = lmm.run_fuzz(ctx, fl, seed, n, -1, "maxmin")
+        fl, seed, n, limit = j
+        res = lmm.run_fuzz(ctx, fl, seed, n, limit, "maxmin")
         if res.timed_out:
             ctx.inconclusive("lmm_fuzz watchdog")
             return
@@ -42,11 +48,13 @@ def run(ctx):
             ctx.violation("C17:crash:maxmin", "lmm_fuzz died rc=%s (seed %d): %s" % (res.rc, seed, proc.sanitizer_reports(res.err)[:1] or res.err[-400:]),
                           {"seed": seed, "nhist": n, "flavour": fl})
             return
-        judge(ctx, out, seed, n, fl)
+        judge(ctx, out, seed, n, fl, limit)
         for h, (solves, multi, staged) in out["hist"].items():
             ctx.evaluation()
             if multi > 0:
                 ctx.nontrivial("%d|%d" % (seed, h))
+            if limit > 0 and staged > 0:
+                ctx.count("histories_with_staged_variables")
         ctx.count("solves_compared", int(out["sum"]["solves"]))
         ctx.count("modifications", int(out["sum"]["mods"]))
         ctx.count("runs." + fl)
@@ -55,8 +63,8 @@ def run(ctx):
 
 
 def replay(ctx, w):
-    res = lmm.run_fuzz(ctx, w["flavour"], w["seed"], w["nhist"], -1, "maxmin", trace_h=w["hist"])
+    res = lmm.run_fuzz(ctx, w["flavour"], w["seed"], w["nhist"], w.get("limit", -1), "maxmin", trace_h=w["hist"])
     out = lmm.parse(res)
     print("\n".join(out["trace"]))
-    judge(ctx, out, w["seed"], w["nhist"], w["flavour"])
+    judge(ctx, out, w["seed"], w["nhist"], w["flavour"], w.get("limit", -1))
     ctx.evaluation()
